@@ -7,9 +7,9 @@
   (`recipProd_flipRoots`): it is the same hypothesis for every seed vector, and
   `ratio · g · grev = poly` is `F F~ + G G~ = 1` with `G = sqrt(ratio) · g`.
 
-  Proofs: `QSP/Proofs/FGComplete.lean`.  Partial: that the factor list built by `factorsFG`
-  (a `mapM` over index ranges) denotes `∏ (z - s)` is a hypothesis of `completeFG_sound_partial`,
-  discharged per factor by `cplxFactor_den`, `realFactor_den`, `toC_cqInv`.
+  Proofs: `QSP/Proofs/FGComplete.lean`.  `completeFG_sound` (end of file) has no side
+  hypothesis: `factorsFG` is characterised in closed form (`factorsFG_eq`, `factorsFG_none`);
+  `completeFG_sound_partial` is the earlier version with the factor denotation assumed.
 -/
 import QSP.Proofs.FGComplete
 open Polynomial
@@ -112,5 +112,76 @@ example : C ((35 / 81 : ℚ) : ℂ) * (toPolyR [-1 / 2, 1] * Grev [((1 / 2 : ℚ
     obtain rfl := Option.some.inj hfs
     simp only [List.map_cons, List.map_nil, List.prod_cons, List.prod_nil, mul_one,
       realFactor_den, Gpoly]
+
+
+/-! ### `factorsFG` in closed form and `completeFG` end to end (no side hypotheses) -/
+
+/-- a `mapM` into `Option` all of whose steps succeed -/
+theorem mapM_some {α β : Type} (f : α → Option β) (g : α → β) (l : List α)
+    (h : ∀ a ∈ l, f a = some (g a)) : l.mapM f = some (l.map g) := QSP.mapM_some f g l h
+
+/-- every needed bit present: the factor list is
+    `[|r'|², -2 Re r', 1]` (`r'` = root `i` or its reciprocal by bit `i`) for the complex roots,
+    then `[-r', 1]` (bit `i + #complex`) for the real ones -/
+theorem factorsFG_eq (im : List CQ) (re : List ℚ) (seed : List Bool)
+    (hseed : im.length + re.length ≤ seed.length) :
+    factorsFG im re seed
+      = some ((List.range im.length).map (facI im seed) ++
+          (List.range re.length).map (facR im re seed)) := QSP.factorsFG_eq im re seed hseed
+
+/-- a missing bit: the code's `CompletionError` for a short seed -/
+theorem factorsFG_none (im : List CQ) (re : List ℚ) (seed : List Bool)
+    (hseed : seed.length < im.length + re.length) : factorsFG im re seed = none :=
+  QSP.factorsFG_none im re seed hseed
+
+theorem factorsFG_some_iff (im : List CQ) (re : List ℚ) (seed : List Bool) :
+    (factorsFG im re seed).isSome ↔ im.length + re.length ≤ seed.length :=
+  QSP.factorsFG_some_iff im re seed
+
+/-- the factor list denotes `∏ (z - s)` over the selected roots (`r'`, `conj r'` for every
+    complex root, `r'` for every real one) -/
+theorem factors_den (im : List CQ) (re : List ℚ) (seed : List Bool) :
+    (((List.range im.length).map (facI im seed) ++
+        (List.range re.length).map (facR im re seed)).map toPolyR).prod
+      = Gpoly (selRoots im re seed) := QSP.factors_den im re seed
+
+/-- the specification `∏ (z - s)(z - 1/s)` does not see the seed -/
+theorem recipProd_selRoots (im : List CQ) (re : List ℚ) (seed : List Bool) :
+    recipProd (selRoots im re seed) = recipProd (selRoots im re []) :=
+  QSP.recipProd_selRoots im re seed
+
+/-- **C04 / C03 for the executable, every seed**: if `completeFG` returns `(g, ratio)` then the
+    seed was long enough, `g = ∏ (z - s)` over the selected roots, and
+    `ratio · g · grev = norm · ∏ (z - s)(z - 1/s)` over the UNFLIPPED inside roots: whenever the
+    right-hand side is `w^{2 deg} (1 - F F~)` (the root finder's specification),
+    `G = sqrt(ratio) · g` satisfies `F F~ + G G~ = 1`. -/
+theorem completeFG_sound (thr : ℚ) (roots : List CQ) (seed : List Bool) (norm : ℚ)
+    (g : List ℚ) (ratio : ℚ) (h : completeFG thr roots seed norm = some (g, ratio)) :
+    (classifyRoots thr roots).1.length + (classifyRoots thr roots).2.length ≤ seed.length ∧
+    toPolyR g = Gpoly (selRoots (classifyRoots thr roots).1 (classifyRoots thr roots).2 seed) ∧
+    C (ratio : ℂ) * (toPolyR g *
+        Grev (selRoots (classifyRoots thr roots).1 (classifyRoots thr roots).2 seed))
+      = C (norm : ℂ) *
+        recipProd (selRoots (classifyRoots thr roots).1 (classifyRoots thr roots).2 []) :=
+  QSP.completeFG_sound thr roots seed norm g ratio h
+
+/-- the closed form on an instance with one complex pair and one real root, mixed seed -/
+example :
+    factorsFG [(1 / 2, 1 / 2)] [1 / 3] [true, false]
+      = some ((List.range 1).map (facI [(1 / 2, 1 / 2)] [true, false]) ++
+          (List.range 1).map (facR [(1 / 2, 1 / 2)] [1 / 3] [true, false])) ∧
+    factorsFG [(1 / 2, 1 / 2)] [1 / 3] [true, false] = some [[2, -2, 1], [-1 / 3, 1]] ∧
+    factorsFG [(1 / 2, 1 / 2)] [1 / 3] [true] = none := by decide +kernel
+
+/-- `completeFG_sound` applies to the run of the first example with the flipped seed -/
+example :
+    C ((35 / 324 : ℚ) : ℂ) * (toPolyR [-2, 1] *
+        Grev (selRoots (classifyRoots (1 / 100000000) [(2, 0), (1 / 2, 0)]).1
+          (classifyRoots (1 / 100000000) [(2, 0), (1 / 2, 0)]).2 [true]))
+      = C ((-35 / 162 : ℚ) : ℂ) *
+        recipProd (selRoots (classifyRoots (1 / 100000000) [(2, 0), (1 / 2, 0)]).1
+          (classifyRoots (1 / 100000000) [(2, 0), (1 / 2, 0)]).2 []) :=
+  (completeFG_sound (1 / 100000000) [(2, 0), (1 / 2, 0)] [true] (-35 / 162) [-2, 1] (35 / 324)
+    (by decide +kernel)).2.2
 
 end QSP.C04b
